@@ -117,6 +117,10 @@ func runC08(r *Runner, g *Gen, tier string) string {
 				r.Do(codecOp("build", cfg, Struct(F("M", "1", m)), "", A("5")), true, "build.map-of-slices")
 				r.Do(codecOp("build", cfg, Struct(&FieldDef{Name: "M", Exported: true, Plenc: "1,proto", T: m}), "", A("5")), true, "build.map-of-slices")
 				r.Do(codecOp("build", cfg, Slice(Struct(F("M", "1", m))), "", A("5")), true, "build.map-of-slices")
+				if mv.K == "ptr" {
+					// … and as the KEY (pointers are comparable)
+					r.Do(codecOp("build", cfg, Struct(F("M", "1", Map(mv, B("int")))), "", A("5")), true, "build.map-of-slices")
+				}
 			}
 		}
 	}
